@@ -165,3 +165,122 @@ Proof.
 Qed.
 Lemma repeat_nl_skippable k : Forall skippable (repeat nl_tok k).
 Proof. induction k; cbn [repeat]; constructor; try assumption. split; [intros X; discriminate X|split; discriminate]. Qed.
+
+(* ---------- names: predefined, EQU or label ---------- *)
+Section Names.
+Variable cf : mconf.
+Variable ev : env.
+Variable ls : labels.
+
+Definition knownE (id : N) : Prop :=
+  predefined_value cf id <> None \/ env_find id ev <> None \/ lab_find' id ls <> None.
+
+Lemma spe_all_app i a b : spe_all cf ev ls i (a ++ b) =
+  match spe_all cf ev ls i a, spe_all cf ev ls i b with Some x, Some y => Some (x ++ y) | _, _ => None end.
+Proof.
+  induction a as [|t r IH]; cbn [app spe_all].
+  - destruct (spe_all cf ev ls i b); reflexivity.
+  - rewrite IH. destruct (spe_tok cf ev ls i t), (spe_all cf ev ls i r), (spe_all cf ev ls i b); try reflexivity. rewrite app_assoc. reflexivity.
+Qed.
+Lemma spe_all_some i e l : spe_all cf ev ls i (nprint e) = Some l -> Forall knownE (names e).
+Proof.
+  revert l. induction e as [n|id|e IH|m e IH|o a IHa b IHb]; cbn [names nprint]; intros l H.
+  - constructor.
+  - constructor; [|constructor]. cbn [spe_all spe_tok] in H. unfold knownE.
+    destruct (predefined_value cf id); [left; discriminate|]. destruct (env_find id ev); [right; left; discriminate|].
+    destruct (lab_find' id ls); [right; right; discriminate|discriminate].
+  - cbn [spe_all spe_tok] in H. rewrite spe_all_app in H. destruct (spe_all cf ev ls i (nprint e)) as [x|] eqn:E; [|discriminate]. eapply IH. reflexivity.
+  - cbn [spe_all spe_tok] in H. destruct (spe_all cf ev ls i (nprint e)) as [x|] eqn:E; [|discriminate]. eapply IH. reflexivity.
+  - rewrite spe_all_app in H. destruct (spe_all cf ev ls i (nprint a)) as [x|] eqn:Ea; [|discriminate].
+    cbn [spe_all spe_tok] in H. destruct (spe_all cf ev ls i (nprint b)) as [y|] eqn:Eb; [|discriminate].
+    apply Forall_app. split; [eapply IHa|eapply IHb]; reflexivity.
+Qed.
+Lemma value_names i e v : value_at cf ev ls i e = MV v -> Forall knownE (names e).
+Proof.
+  unfold value_at. cbn [subst_all]. fold (all_te (nprint e)). destruct (all_te (nprint e)) eqn:Ea.
+  - intros _. rewrite (all_te_nonames e Ea). constructor.
+  - rewrite subst_pass_spe. destruct (spe_all cf ev ls i (nprint e)) as [l'|] eqn:Es; [|discriminate]. intros _. apply (spe_all_some i e l' Es).
+Qed.
+End Names.
+
+(* ---------- the glue over documents with EQU lines ---------- *)
+Section EquGlue.
+Variable spell : N -> text.
+Variable cfg : config.
+Variable its : list Prog.item.
+Notation cf := (mconf_of cfg).
+Notation ev := (equs its).
+Notation ils := (instrs its).
+Notation ls := (lab_pairs 0 ils).
+Notation ids := (flat_map il_labels ils ++ map fst ev).
+Hypothesis Hsp : spell_ok spell ids.
+
+(* a table that knows the labels and the EQU names: "known" of C03Labels then means predefined, EQU or label *)
+Definition lbs' : labels := ls ++ map (fun n => (n, 0)) (map fst ev).
+Lemma lbs'_keys : map fst lbs' = ids.
+Proof. unfold lbs'. rewrite map_app, lab_pairs_keys. f_equal. rewrite map_map. cbn [fst]. apply map_id. Qed.
+Lemma Hsp' : spell_ok spell (map fst lbs').
+Proof. rewrite lbs'_keys. exact Hsp. Qed.
+
+Lemma lab_find'_keys id (ps : labels) : In id (map fst ps) -> lab_find' id ps <> None.
+Proof.
+  induction ps as [|[k v] t IH]; intros H; [destruct H|]. cbn [lab_find' map fst In] in *.
+  destruct (N.eqb_spec k id); [discriminate|]. apply IH. destruct H as [H|H]; [congruence|exact H].
+Qed.
+Lemma knownE_known id : knownE cf ev ls id -> known cf lbs' id.
+Proof.
+  intros [H|[H|H]]; [left; exact H| |].
+  - right. apply lab_find'_keys. rewrite lbs'_keys. apply in_or_app. right.
+    destruct (env_find id ev) as [d|] eqn:E; [|congruence]. apply (env_find_in id ev d E).
+  - right. apply lab_find'_keys. rewrite lbs'_keys. apply in_or_app. left. rewrite <- lab_pairs_keys with (a := 0).
+    destruct (lab_find' id ls) as [a|] eqn:E; [|congruence]. apply (lab_find'_in _ _ _ E).
+Qed.
+
+Definition bodies_known : Prop := Forall (fun ne => Forall (knownE cf ev ls) (names (snd ne))) ev.
+
+Lemma meaning_line_knownE l t i x : renders_line spell l t -> instr_meaning cf ev ls i l = MI x ->
+  Forall (known cf lbs') (line_names l).
+Proof.
+  intros _ H. unfold instr_meaning in H. cbv zeta in H.
+  destruct (if mf_legacy cf then _ else _) as [md|]; [|discriminate].
+  destruct (value_at cf ev ls i (o_expr (il_a l))) as [av| |] eqn:Eva; try discriminate.
+  unfold line_names. apply Forall_app. split.
+  - eapply Forall_impl; [apply knownE_known|]. apply (value_names cf ev ls i _ av Eva).
+  - destruct (il_b l) as [b|]; [|constructor].
+    destruct (value_at cf ev ls i (o_expr b)) as [bv| |] eqn:Evb; try discriminate.
+    eapply Forall_impl; [apply knownE_known|]. apply (value_names cf ev ls i _ bv Evb).
+Qed.
+
+Lemma r2_known org its0 es : renders_doc2 spell org its0 es -> forall i acc code s,
+  meaning_code cf ev ls i (instrs its0) acc = MOk code s -> Forall (fun l => Forall (known cf lbs') (line_names l)) (instrs its0).
+Proof.
+  induction 1 as [|org l its1 t k es Hl _ IH|org c k its1 es _ _ IH|e kw cmt k its1 es _ _ _ IH|org n e labs kw cmt k its1 es _ _ _ _ IH];
+    intros i acc code s H; cbn [instrs] in *; try (apply (IH _ _ _ _ H)); [constructor|].
+  cbn [meaning_code] in H. destruct (instr_meaning cf ev ls i l) as [x| |] eqn:Ei; try discriminate.
+  constructor; [apply (meaning_line_knownE l t i x Hl Ei)|apply (IH _ _ _ _ H)].
+Qed.
+
+(* shapes the renderings must have: a label section begins with a name *)
+Definition shape2_ok (es : list (lelem * nat)) : Prop := Forall (fun xk => labs_shape (fst xk)) es.
+
+Lemma r2_ok org its0 es : renders_doc2 spell org its0 es -> incl (flat_map il_labels (instrs its0) ++ map fst (equs its0)) ids ->
+  shape2_ok es -> Forall (fun xk => lelem_ok (fst xk)) es.
+Proof.
+  induction 1 as [|org l its1 t k es Hl _ IH|org c k its1 es _ _ IH|e kw cmt k its1 es Hkw _ _ IH|org n e labs kw cmt k its1 es Hl Hkw _ _ IH];
+    intros Hinc Hsh; [constructor| | | |]; inversion Hsh as [|a b Ha Hb]; subst; cbn [fst] in Ha.
+  - cbn [instrs equs flat_map] in Hinc. constructor.
+    + cbn [fst lelem_ok]. apply (tline_rendered spell lbs' Hsp' l t); [|exact Hl|exact Ha].
+      rewrite lbs'_keys. intros x Hx. apply Hinc. apply in_or_app. left. apply in_or_app. left. exact Hx.
+    + apply IH; [|exact Hb]. intros x Hx. apply Hinc. apply in_app_or in Hx. destruct Hx as [Hx|Hx]; apply in_or_app; [left; apply in_or_app; right; exact Hx|right; exact Hx].
+  - constructor; [exact I|apply IH; assumption].
+  - constructor; [|apply IH; assumption].
+    cbn [fst lelem_ok]. destruct (org_kw_facts kw Hkw) as [K1 [K2 [K3 _]]]. unfold dir_ok. repeat split; try assumption; try apply K1.
+    + apply etoks_terms.
+    + apply etoks_nonempty.
+  - cbn [instrs equs map fst] in Hinc. constructor.
+    + cbn [fst lelem_ok]. destruct (equ_kw_facts kw Hkw) as [K1 [K2 [K3 _]]]. split; [exact Ha|]. split.
+      * rewrite Hl. constructor; [|constructor]. apply (sp_lab _ _ Hsp n). apply Hinc. apply in_or_app. right. left. reflexivity.
+      * unfold dir_ok. repeat split; try assumption; try apply K1; [apply etoks_terms|apply etoks_nonempty].
+    + apply IH; [|exact Hb]. intros x Hx. apply Hinc. apply in_app_or in Hx. destruct Hx as [Hx|Hx]; apply in_or_app; [left; exact Hx|right; right; exact Hx].
+Qed.
+End EquGlue.
